@@ -204,25 +204,31 @@ def xargs_runs(ctx):
                               {"property": "C06", "kind": "long-command-path", "path_length": len(cmd), "arguments": count, "exit": p.returncode,
                                "stderr": p.stderr.decode("utf-8", "replace")[:300]})
         # -I: the command line exists only after the line has been put in; it is that line which must fit (per argument and in total)
-        for rl, cmdargs, lines in ((8 << 20, [b"{}{}"], [b"ok", b"z" * 70000, b"after"]),
-                                   (8 << 20, [b"{}{}"], [b"ok", b"z" * 65535, b"after"]),
-                                   (256 * 1024, [b"{}", b"{}", b"{}", b"{}"], [b"ok", b"y" * 15000, b"after"]),
-                                   (256 * 1024, [b"{}", b"{}", b"{}"], [b"ok", b"y" * rng.choice([15000, 1000, 18000]), b"after"])):
+        # ... also when -s is given and is not what binds (it counts characters only: the per-argument bound and the pointers are the system's)
+        sub_cases = []
+        for sopt in (None, 1000000, 200000):
+            sub_cases += [(8 << 20, [b"{}{}"], [b"ok", b"z" * 70000, b"after"], sopt),
+                          (8 << 20, [b"{}{}"], [b"ok", b"z" * 65535, b"after"], sopt),
+                          (8 << 20, [b"x{}"], [b"ok", b"z" * 131071, b"after"], sopt)]
+        sub_cases += [(256 * 1024, [b"{}", b"{}", b"{}", b"{}"], [b"ok", b"y" * 15000, b"after"], None),
+                      (256 * 1024, [b"{}"] * 40, [b"ok", b"y" * 2900, b"after"], 124000),
+                      (256 * 1024, [b"{}", b"{}", b"{}"], [b"ok", b"y" * rng.choice([15000, 1000, 18000]), b"after"], rng.choice([None, 100000]))]
+        for rl, cmdargs, lines, sopt in sub_cases:
             rec = os.path.join(td, "recI")
             if os.path.exists(rec):
                 os.remove(rec)
             env = dict(xc.ENV, FUV_RECORD=rec)
             cmd = [fw.FUV.encode(), b"record"] + cmdargs
-            p = subprocess.run([fw.XARGS, "-I{}"] + [c.decode() for c in cmd], input=b"\n".join(lines) + b"\n", env=env, preexec_fn=pre(rl),
+            p = subprocess.run([fw.XARGS, "-I{}"] + (["-s", str(sopt)] if sopt else []) + [c.decode() for c in cmd], input=b"\n".join(lines) + b"\n", env=env, preexec_fn=pre(rl),
                                stdout=subprocess.DEVNULL, stderr=subprocess.PIPE, timeout=300)
             runs = sum(1 for _ in open(rec)) if os.path.exists(rec) else 0
             amax = int(subprocess.run(["getconf", "ARG_MAX"], preexec_fn=pre(rl), capture_output=True).stdout)
             toks = [(l, "h") for l in lines]
-            m = fw.run_lines(fw.FUVM, [xc.model_line(1, None, None, False, False, cmd, toks, False, [], replace=True, env=env, arg_max=amax, repl_R=b"{}")], shards=1)[0].split(" ")
-            ctx.count(("substituted", rl, tuple(cmdargs), tuple(len(l) for l in lines)), True, ["substituted-line", "model-exit=%s" % m[0]])
+            m = fw.run_lines(fw.FUVM, [xc.model_line(1, None, sopt, False, False, cmd, toks, False, [], replace=True, env=env, arg_max=amax, repl_R=b"{}")], shards=1)[0].split(" ")
+            ctx.count(("substituted", rl, tuple(cmdargs), tuple(len(l) for l in lines), sopt), True, ["substituted-line", "model-exit=%s" % m[0], "s=%s" % sopt])
             if p.returncode in (126, 127) or b"too long" in p.stderr or (str(p.returncode), runs) != (m[0], len(m) - 1):
-                ctx.violation("xargs -I{} CMD %s with lines of %s bytes under stack limit %d: exit %d after %d invocation(s) (%s); model: exit %s after %d"
-                              % (cmdargs, [len(l) for l in lines], rl, p.returncode, runs, p.stderr.decode("utf-8", "replace")[:100], m[0], len(m) - 1),
+                ctx.violation("xargs -I{}%s CMD %s with lines of %s bytes under stack limit %d: exit %d after %d invocation(s) (%s); model: exit %s after %d"
+                              % (" -s %d" % sopt if sopt else "", cmdargs[:4], [len(l) for l in lines], rl, p.returncode, runs, p.stderr.decode("utf-8", "replace")[:100], m[0], len(m) - 1),
                               {"property": "C06", "kind": "substituted-line", "arguments": [c.decode() for c in cmdargs], "line_lengths": [len(l) for l in lines],
                                "stack_limit": rl, "exit": p.returncode, "invocations": runs, "model_exit": m[0], "model_invocations": len(m) - 1,
                                "stderr": p.stderr.decode("utf-8", "replace")[:300],
